@@ -182,6 +182,11 @@ func VerifC10Consistency() {
 		if ext {
 			o["external"] = true
 		}
+		// a custom driver changes nothing: none (checkConsistency) or several sources (validation) are rejected
+		drv := !isCfg && vrtChoice("driver", 2) == 1
+		if drv {
+			o["driver"] = "d"
+		}
 		if isCfg {
 			doc["configs"].(map[string]any)["cfg"] = o
 		} else {
